@@ -164,7 +164,7 @@ def wipe_db():
         cur = con.cursor()
         cur.execute('PRAGMA foreign_keys=OFF')
         for t in _TABLES:
-            if t in ('metrics',):
+            if t in ('metrics', 'mistral_metrics'):
                 continue
             cur.execute('DELETE FROM %s' % t)
         cur.execute('PRAGMA foreign_keys=ON')
